@@ -206,6 +206,23 @@ pub fn gen_c06(run: &mut Run, seed: u64, thorough: bool) {
                 g.rotate(&cand, &pf, true, &auth, &format!("rotate-bypass-older-set-{pc}-{hname}"));
                 g.run.op("gw.epoch", "q");
             }
+            // the operator's authorisation covers ONE call: after a bypass (made once the delay has elapsed, so that it is the
+            // bypass that restarts the clock) nobody can follow up with a plain rotation inside the new delay window
+            {
+                let t = g.now + 1000;
+                g.set_time(t);
+                let cand = g.mk_set(2, 0, 2);
+                let latest = g.sets.last().unwrap().clone();
+                let pf = g.honest(&latest, &cand.rotation_data_hash(&g.env));
+                g.rotate(&cand, &pf, true, &AuthSpec::exact(&[oroles.holder.clone()]), &format!("rotate-bypass-after-delay-current-holder-{hname}"));
+                let t = g.now + 1;
+                g.set_time(t);
+                let cand2 = g.mk_set(2, 0, 2);
+                let latest = g.sets.last().unwrap().clone();
+                let pf2 = g.honest(&latest, &cand2.rotation_data_hash(&g.env));
+                g.rotate(&cand2, &pf2, false, &AuthSpec::None, &format!("rotate-plain-right-after-bypass-nobody-{hname}"));
+                g.run.op("gw.epoch", "q");
+            }
             for (ep, role_is_owner) in [("gw.transfer_operatorship", false), ("gw.transfer_ownership", true)] {
                 let ps = if role_is_owner { principals(&wroles, &oroles.holder, &bene) } else { principals(&oroles, &wroles.holder, &bene) };
                 for (au, pc) in ps {
